@@ -93,7 +93,11 @@ Decode(m, data) ==
 \* integrity / fingerprint setters: value computed over Raw with the length temporarily raised
 \* (Mac(key, bytes) and Crc(bytes) are parameters: real HMAC-SHA1/CRC-32 in trace validation,
 \*  an injective stand-in in the exhaustive configuration)
+HasFingerprint(m) == \E i \in 1..Len(m.attrs) : m.attrs[i].type = 32808
+
+\* (refused - message untouched - once FINGERPRINT is present: RFC 5389 s15.5 wants it last)
 AddIntegrity(m, key, Mac(_, _)) ==
+  IF HasFingerprint(m) THEN m ELSE
   LET t   == WriteLength([m EXCEPT !.length = m.length + 24])
       mac == Mac(key, t.raw)
       \* the digest is produced by Sum(Raw[len(Raw):]): it lands in the retained bytes behind Raw when
